@@ -256,8 +256,20 @@ def check_one(desc, tier, acc):
                     acc.nontrivial.add(hash(("copy", oname, side, v0)))
 
 
+def overlapping_directed():
+    """directed hyperedges with a node on BOTH sides (accepted by the container; its size is |source| + |target| throughout the
+    public API: get_sizes, max_size, the order/size filters)"""
+    cands = [((2, 5), (5, 7)), ((2,), (2, 5)), ((7,), (7,)), ((2, 5), (7,)), ((5, 7), (2, 5, 7))]
+    for es in C.edge_sets(cands, 2, 1):
+        nodes = tuple(sorted({n for s, t in es for n in s + t})) + (11,)
+        for w in (False, True):
+            yield {"kind": "D", "nodes": nodes, "edges": tuple(es), "weighted": w, "weights": C.inj_weights(len(es)) if w else None,
+                   "nmd": C.node_md_rule(nodes, 0), "emd": C.edge_md_rule(es, 0), "hmd": {}}
+
+
 def corpus(tier):
     U = (2, 5, 7)
+    yield from overlapping_directed()
     if tier == "quick":
         yield from C.hypergraph_contents(U, isolated=(11,), lo=1, hi=3, max_edges=3)
         yield from C.hypergraph_contents(("a", "b", "c"), isolated=("d",), lo=1, hi=3, max_edges=2, md_styles=(1,))
